@@ -24,8 +24,8 @@ theorem partitionO_wf (t : Table Rat) (ht : TableOk t) (ls : List Label) (re ign
     (p : Label × Table Rat) (hp : p ∈ partitionO t ls re ign) : p.2.WF := by
   rw [mem_partitionO t ls re ign p hp]
   cases re
-  · exact sel_wf t ht.wf _
-  · exact removeEmpty_wf _ (sel_wf t ht.wf _)
+  · exact castMd_wf _ (sel_wf t ht.wf _)
+  · exact castMd_wf _ (removeEmpty_wf _ (sel_wf t ht.wf _))
 
 theorem partition_model_holds (t : Table Rat) (ax : Axis) (ht : TableOk t) (f : Labeler) (re ign : Bool) :
     holds t ax (.partition f re ign) (model t ax (.partition f re ign)) = true := by
@@ -134,8 +134,8 @@ theorem partition_eq (re : Bool) (hl : f.labels (t.ids ax) = .ok ls) :
 theorem mem_partition (re : Bool) (hl : f.labels (t.ids ax) = .ok ls) {ps : List (Label × Table Rat)}
     (h : partition t ax f re ign = .ok ps) {k : Label} {p : Table Rat} (hp : (k, p) ∈ ps) :
     k ∈ firsts ((ls.map (eff ign)).filterMap id) ∧
-      p = orient ax (if re then removeEmpty (sel (orient ax t) (maskOf (ls.map (eff ign)) k))
-                     else sel (orient ax t) (maskOf (ls.map (eff ign)) k)) := by
+      p = orient ax (if re then castMd (removeEmpty (sel (orient ax t) (maskOf (ls.map (eff ign)) k)))
+                     else castMd (sel (orient ax t) (maskOf (ls.map (eff ign)) k))) := by
   rw [partition_eq t ax f ign ls re hl] at h
   cases h
   obtain ⟨q, hq, he⟩ := List.mem_map.mp hp
@@ -162,7 +162,7 @@ theorem partition_part_ids (ht : TableOk t) (hl : f.labels (t.ids ax) = .ok ls)
     (hp : (k, p) ∈ ps) : p.ids ax = members (t.ids ax) (ls.map (eff ign)) k := by
   obtain ⟨_, rfl⟩ := mem_partition t ax f ign ls false hl h hp
   simp only [Bool.false_eq_true, if_false]
-  rw [orient_ids, sel_obs_eq_members _ (orient_ok ax t ht).obsNodup, orient_obs]
+  rw [orient_ids, castMd_obs, sel_obs_eq_members _ (orient_ok ax t ht).obsNodup, orient_obs]
 
 /-- with `remove_empty` the all-zero vectors of the group are dropped, nothing else -/
 theorem partition_part_ids_remove_empty (ht : TableOk t) (hl : f.labels (t.ids ax) = .ok ls)
@@ -172,7 +172,8 @@ theorem partition_part_ids_remove_empty (ht : TableOk t) (hl : f.labels (t.ids a
   obtain ⟨_, rfl⟩ := mem_partition t ax f ign ls true hl h hp
   have hto := orient_ok ax t ht
   simp only [if_true]
-  rw [orient_ids, removeEmpty_obs _ (sel_ok _ hto _).obsNodup, sel_obs_eq_members _ hto.obsNodup, orient_obs]
+  rw [orient_ids, castMd_obs, removeEmpty_obs _ (sel_ok _ hto _).obsNodup, sel_obs_eq_members _ hto.obsNodup,
+    orient_obs]
   apply List.filter_congr
   intro id hid
   unfold rowNZ
@@ -189,13 +190,16 @@ theorem partition_cover (ht : TableOk t) (hl : f.labels (t.ids ax) = .ok ls)
   have hps := partition_eq t ax f ign ls false hl
   rw [h] at hps
   cases hps
-  let q : Label × Table Rat := (k, sel (orient ax t) (maskOf (ls.map (eff ign)) k))
+  let q : Label × Table Rat := (k, castMd (sel (orient ax t) (maskOf (ls.map (eff ign)) k)))
   have hq : q ∈ partitionO (orient ax t) ls false ign := by
     unfold partitionO partO
-    simp only [Bool.false_eq_true, if_false]
-    exact List.mem_map_of_mem (f := fun k => (k, sel (orient ax t) (maskOf (ls.map (eff ign)) k))) hkey
+    simp only [Bool.false_eq_true, if_false, List.map_map]
+    exact List.mem_map_of_mem
+      (f := (fun p : Label × Table Rat => (p.1, castMd p.2)) ∘
+        fun k => (k, sel (orient ax t) (maskOf (ls.map (eff ign)) k))) hkey
   refine ⟨orient ax q.2, List.mem_map_of_mem (f := fun p : Label × Table Rat => (p.1, orient ax p.2)) hq, ?_⟩
-  rw [orient_ids, sel_obs_eq_members _ (orient_ok ax t ht).obsNodup, orient_obs, members, List.mem_filter]
+  rw [orient_ids, castMd_obs, sel_obs_eq_members _ (orient_ok ax t ht).obsNodup, orient_obs, members,
+    List.mem_filter]
   exact ⟨hid, by simpa using hk⟩
 
 /-- `partition_disjoint`: an ID lies in at most one part (with or without `remove_empty`) -/
@@ -212,10 +216,10 @@ theorem partition_disjoint (ht : TableOk t) (re : Bool) (hl : f.labels (t.ids ax
     have hm : id ∈ members (t.ids ax) (ls.map (eff ign)) k := by
       cases re with
       | false =>
-        simp only [Bool.false_eq_true, if_false] at hi
+        simp only [Bool.false_eq_true, if_false, castMd_obs] at hi
         rwa [sel_obs_eq_members _ hto.obsNodup, orient_obs] at hi
       | true =>
-        simp only [if_true] at hi
+        simp only [if_true, castMd_obs] at hi
         have := removeEmpty_obs_sub _ hi
         rwa [sel_obs_eq_members _ hto.obsNodup, orient_obs] at this
     simpa [members] using (List.mem_filter.mp hm).2
@@ -228,29 +232,35 @@ theorem partition_disjoint (ht : TableOk t) (re : Bool) (hl : f.labels (t.ids ax
   rw [r₁, r₂, hk]
 
 /-- `partition_cells_md`: without `remove_empty` a part keeps the complete other axis with its
-metadata, and every ID of the part keeps its metadata and every cell of its vector -/
+metadata (all-empty metadata counting as none), and every ID of the part keeps its metadata entry
+and every cell of its vector -/
 theorem partition_cells_md (ht : TableOk t) (hl : f.labels (t.ids ax) = .ok ls)
     {ps : List (Label × Table Rat)} (h : partition t ax f false ign = .ok ps) {k : Label} {p : Table Rat}
     (hp : (k, p) ∈ ps) :
-    p.ids ax.other = t.ids ax.other ∧ p.md ax.other = t.md ax.other ∧ p.ttype = t.ttype ∧
-      ∀ id ∈ p.ids ax, p.mdOf? ax id = t.mdOf? ax id ∧ ∀ oid, cellAx ax p id oid = cellAx ax t id oid := by
+    p.ids ax.other = t.ids ax.other ∧ p.md ax.other = normMd (t.md ax.other) ∧ p.ttype = t.ttype ∧
+      ∀ id ∈ p.ids ax, mdD p ax id = mdD t ax id ∧ ∀ oid, cellAx ax p id oid = cellAx ax t id oid := by
   have hto := orient_ok ax t ht
-  have hids := partition_part_ids t ax f ign ls ht hl h hp
   obtain ⟨_, rfl⟩ := mem_partition t ax f ign ls false hl h hp
-  simp only [Bool.false_eq_true, if_false] at hids ⊢
+  simp only [Bool.false_eq_true, if_false]
   refine ⟨?_, ?_, ?_, ?_⟩
   · rw [orient_ids_other]; exact orient_samp ax t
-  · rw [orient_md_other]; exact orient_smd ax t
+  · rw [orient_md_other]; show normMd (orient ax t).smd = _; rw [orient_smd]
   · cases ax <;> rfl
   · intro id hid
-    rw [orient_ids] at hid
+    rw [orient_ids, castMd_obs] at hid
     constructor
-    · rw [orient_mdOf, sel_mdOf_obs _ hto.obsNodup _ hid, mdOf_orient]
+    · unfold mdD
+      rw [orient_mdOf]
+      show mdD (castMd _) .obs id = _
+      rw [mdD_castMd]
+      unfold mdD
+      rw [sel_mdOf_obs _ hto.obsNodup _ hid, mdOf_orient]
     · intro oid
       have hidt : id ∈ t.ids ax := by
         rw [← orient_obs]; exact mem_of_mem_filterMask hid
-      rw [cellAx_orient ax _ (sel_wf _ hto.wf _) hid, sel_cell _ hto.obsNodup _ hid,
-        cellAx_of_orient ax t ht.wf hidt]
+      rw [cellAx_orient ax _ (castMd_wf _ (sel_wf _ hto.wf _)) hid]
+      show (sel _ _).cell? id oid = _
+      rw [sel_cell _ hto.obsNodup _ hid, cellAx_of_orient ax t ht.wf hidt]
 
 end Partition
 
@@ -294,7 +304,7 @@ when NO group reaches the threshold (then the axis is empty and the other axis i
 theorem collapse_ids_and_other_axis (ht : TableOk t) (_hdom : Domain t) (norm : Bool) (ms : Nat) (icm : Bool)
     (hl : f.labels (t.ids ax) = .ok ls) {r : Table Rat} (h : collapse t ax f norm ms icm = .ok r) :
     r.ids ax = (keptLabels t ax ls ms).map Label.toId ∧ r.ids ax.other = t.ids ax.other ∧
-      r.md ax.other = t.md ax.other ∧ r.ttype = t.ttype ∧ r.WF := by
+      r.md ax.other = normMd (t.md ax.other) ∧ r.ttype = t.ttype ∧ r.WF := by
   rw [collapse_eq t ax f ls norm ms icm hl] at h
   cases h
   have hto := orient_ok ax t ht
@@ -302,7 +312,7 @@ theorem collapse_ids_and_other_axis (ht : TableOk t) (_hdom : Domain t) (norm : 
   refine ⟨?_, ?_, ?_, ?_, orient_wf ax _ hwf⟩
   · rw [orient_ids, collapseO_obs _ hto.obsNodup, keptLabels_eq]
   · rw [orient_ids_other, collapseO_eq _ hto.obsNodup]; exact orient_samp ax t
-  · rw [orient_md_other, collapseO_eq _ hto.obsNodup]; exact orient_smd ax t
+  · rw [orient_md_other, collapseO_eq _ hto.obsNodup]; show normMd (orient ax t).smd = _; rw [orient_smd]
   · rw [collapseO_eq _ hto.obsNodup]; cases ax <;> rfl
 
 /-- `collapse_vector`: the vector of a kept label is the element-wise sum of its members, divided
@@ -520,6 +530,14 @@ example : (match partition demo .samp demoF true false with
     | .ok ps => ps.map (fun p => (p.1, p.2.samp, p.2.obs))
     | .error _ => []) =
     [(.str "a", ["s1", "s2"], ["o1", "o2"]), (.str "b", ["s3"], ["o2"])] := by decide +kernel
+
+/-- `_cast_metadata`: the part made only of samples without any metadata entry has NO sample
+metadata, the other part keeps its entries -/
+example : (match partition { demo with smd := some [[("t", "a")], [], []] } .samp
+      (.results [.str "x", .str "y", .str "y"]) false false with
+    | .ok ps => ps.map (fun p => (p.1, p.2.samp, p.2.smd))
+    | .error _ => []) =
+    [(.str "x", ["s1"], some [[("t", "a")]]), (.str "y", ["s2", "s3"], none)] := by decide +kernel
 
 /-- one-to-one collapse without normalisation: sums, and the totals 3, 12, 0 of o1, o2, o3 conserved -/
 example : (match collapse demo .samp demoF false 1 true with
